@@ -18,6 +18,7 @@ from ..common import (return_values_r, only_err_returns, trace_bool, bool_switch
                       return_values, field_switches, dominated_region)
 from ..facts import op_place, op_const, rv_str
 from ..prov import Prov
+from ..interproc import creation_site
 
 REGISTER = r"^signal_hook::(flag::register$|flag::register_usize$|low_level::register|iterator::)"
 SIGINT, SIGTERM = 2, 15
@@ -230,6 +231,142 @@ def rule_signal_set(ctx, facts):
     return out_sites
 
 
+def _short(name):
+    return "::".join(re.sub(r"::<[^>]*>", "", name).split("::")[-2:])
+
+
+WORK = r"finder::CodeFinder(::<[^>]*>)?::(new|find)$|generate::process_references$|^walkdir::WalkDir::new$"
+
+
+def rule_order_global(ctx, facts, sites):
+    """No discovery or pass can start before the handlers are registered, wherever the registration lives: from
+    `main`, every call that (transitively) does the run's work must be dominated by a call that (transitively)
+    registers; where one callee does both, the same is required inside it."""
+    site_fns = {b.id for (b, _c) in sites}
+
+    def unit_of(b):
+        # closures / coroutines count with the function they are written in
+        seen = 0
+        while b is not None and b.kind not in ("Fn", "AssocFn") and b.parent and seen < 6:
+            b = facts.body(b.parent)
+            seen += 1
+        return b
+
+    def members_pos(f):
+        """(unit, block of f at which the unit's calls take effect): f itself, and every closure / coroutine created
+        in it (also those whose defining function was inlined into f), at the block that builds the closure value"""
+        out, seen = [(f, None)], {f.id}
+        todo = [(f, None)]
+        while todo:
+            u, pos = todo.pop()
+            for bb in sorted(u.reachable_blocks()):
+                for st in u.blocks[bb]["stmts"]:
+                    if st["k"] == "assign" and st["rv"]["k"] == "agg" and st["rv"].get("def"):
+                        cb = facts.body(st["rv"]["def"])
+                        if cb is not None and cb.id not in seen and len(seen) < 40:
+                            seen.add(cb.id)
+                            p2 = pos if pos is not None else bb
+                            out.append((cb, p2))
+                            todo.append((cb, p2))
+        return out
+
+    def members(f):
+        return [u for (u, _p) in members_pos(f)]
+
+    memo_w, memo_r = {}, {}
+
+    def local_callees(c):
+        return [facts.body(n) for n in c.names() if facts.body(n) is not None and facts.body(n).kind in ("Fn", "AssocFn")]
+
+    def may(f, memo, leaf, stack=()):
+        if f.id in memo:
+            return memo[f.id]
+        if f.id in stack:
+            return False
+        memo[f.id] = False
+        out = False
+        for u in members(f):
+            for c in u.calls:
+                if leaf(u, c):
+                    out = True
+                elif any(may(g, memo, leaf, stack + (f.id,)) for g in local_callees(c) if g.id != f.id):
+                    out = True
+        memo[f.id] = out
+        return out
+
+    is_work = lambda u, c: bool(c.matches(WORK))
+    is_reg = lambda u, c: bool(c.matches(REGISTER))
+
+    main = facts.one(r"^main$")
+    if not ctx.check(main is not None, "C18-R2", "anchor|main-order", "main found for the ordering walk", ""):
+        return
+    visited = set()
+    n_checked = [0]
+
+    def walk(f, depth=0):
+        if f.id in visited or depth > 6:
+            return
+        visited.add(f.id)
+        regs, works = [], []
+        for (u, upos) in members_pos(f):
+            for c in u.calls:
+                bb = c.bb if upos is None else upos
+                if c.matches(WORK):
+                    works.append((bb, c, None))
+                    continue
+                gs = [g for g in local_callees(c) if g.id != f.id]
+                r = is_reg(u, c) or any(may(g, memo_r, is_reg) for g in gs)
+                w = any(may(g, memo_w, is_work) for g in gs)
+                if r:
+                    regs.append((bb, c, gs))
+                if w:
+                    works.append((bb, c, gs))
+        dom = cfg.dominators(f)
+        from ..common import loop_containing
+
+        def reg_point(rb):
+            # a registration written as a loop over the signals takes effect where the loop is left: its head
+            # dominates everything after it (that the loop runs for every signal is C18-R1's business)
+            lp = loop_containing(f, rb)
+            if not lp:
+                return rb, set()
+            heads = [h for h in lp if any(p not in lp for p in preds.get(h, ()))]
+            return (heads[0] if heads else rb), set(lp)
+
+        preds = {}
+        for a in f.reachable_blocks():
+            for b2 in f.succ[a]:
+                preds.setdefault(b2, []).append(a)
+        for (wb, w, gs) in works:
+            before = []
+            for (rb, r, _g) in regs:
+                if r.bb == w.bb and r.name == w.name:
+                    continue
+                pt, lp = reg_point(rb)
+                if pt in dom.get(wb, ()) and wb not in lp and pt != wb:
+                    before.append(r)
+            n_checked[0] += 1
+            if before:
+                continue
+            both = [g for g in (gs or []) if may(g, memo_r, is_reg)]
+            if both:
+                for g in both:
+                    walk(g, depth + 1)
+                continue
+            ctx.bad("C18-R2", "order-global|%s|%s" % (f.id, _short(w.name)),
+                    "`%s` can start before SIGINT / SIGTERM are registered: no registering call dominates it in %s (a signal arriving meanwhile kills the process instead of stopping it)" % (_short(w.name), f.id), w.where())
+        # a callee that registers *and* works is also examined when it was counted as the registering call
+        for (rb, r, gs) in regs:
+            for g in (gs or []):
+                if may(g, memo_w, is_work):
+                    walk(g, depth + 1)
+
+    walk(main)
+    ctx.check(n_checked[0] >= 2, "C18-R2", "order-global-floor", "work calls examined for registration-before-work: %d (floor 2)" % n_checked[0], main.where())
+    if not any(r["rule"] == "C18-R2" and not r["ok"] and "order-global|" in r.get("key", "") for r in ctx.results):
+        ctx.ok("C18-R2", "every discovery / pass call reachable from main is dominated by the signal registration (functions walked: %s)" % sorted(visited), main.where())
+
+
 def rule_registration_order(ctx, facts, sites):
     for b, c in sites:
         # (a) not inside a mode-specific region
@@ -426,6 +563,7 @@ def run(ctx):
     facts = ctx.bin
     sites = rule_signal_set(ctx, facts)
     rule_registration_order(ctx, facts, sites)
+    rule_order_global(ctx, facts, [(b, c) for (b, c) in sites])
     rule_polling(ctx, facts)
     rule_interrupted_nonzero(ctx, facts)
     from .c07 import rule_no_self_termination
